@@ -56,10 +56,17 @@ fn gen_case(seed: u64, idx: u64, thorough: bool) -> Case {
     let mut p = CallSetParams::standard(6, if thorough { 40 } else { 16 });
     p.allow_strict = true;
     let (callset, cfg) = gen::gen_callset(&mut rng, &p);
-    let container = *rng.pick(&[Container::VcfGz, Container::Bcf]);
+    let mut container = *rng.pick(&[Container::VcfGz, Container::Bcf]);
     let vcf = callset.to_vcf();
+    // call sets the BCF writer cannot encode (symbolic contig names) are explored as BGZF VCF
     let payload = if container == Container::Bcf {
-        gen::vcf_to_bcf(&vcf).unwrap_or_default()
+        match gen::vcf_to_bcf(&vcf) {
+            Ok(raw) => raw,
+            Err(_) => {
+                container = Container::VcfGz;
+                vcf
+            }
+        }
     } else {
         vcf
     };
